@@ -727,6 +727,28 @@ func (p *parsedStream) equivalent() []byte {
 	return o
 }
 
+// padded re-emits an UNCOMPRESSED stream with n extra bytes after the content of every data frame;
+// the frame's declared size is enlarged to cover them.
+func (p *parsedStream) padded(n int) []byte {
+	var o []byte
+	o = append(o, "STEF"...)
+	o = binary.AppendUvarint(o, uint64(len(p.hdr)))
+	o = append(o, p.hdr...)
+	for i, f := range p.frames {
+		extra := n
+		if i == 0 {
+			extra = 0 // the variable header
+		}
+		o = append(o, f.flags)
+		o = binary.AppendUvarint(o, f.usize+uint64(extra))
+		o = append(o, f.content...)
+		for k := 0; k < extra; k++ {
+			o = append(o, byte(0xa5+k))
+		}
+	}
+	return o
+}
+
 func (p *parsedStream) totalRecords() int {
 	n := 0
 	for _, f := range p.frames {
